@@ -3,6 +3,7 @@ import LoguruModel.Conc.ForkQueueLemmas
 import LoguruModel.Generated.Locks
 import LoguruModel.Conc.ForkWorker
 import LoguruModel.Generated.WorkerShape
+import LoguruModel.Conc.ForkHooks
 /-
 C15 – fork(): property theorems about the fork operation of `Conc.step` (acquire_locks in the
 forking thread: core lock, then every handler lock in an arbitrary order; `forked`; release_locks).
@@ -287,5 +288,94 @@ theorem report_after_release_witness :
 
 /-- tie G: in the current source every output of `_queued_writer` is inside `with <queue lock>` -/
 theorem worker_output_under_lock_of_source : Worker.ShapeGen.workerOutputUnderLock = true := by decide
+
+/-! ### the hooks iterate weak sets: the sets must not change under their feet (`Conc/ForkHooks.lean`) -/
+
+/-- With the shape of the code – logger locks acquired first and released last by the hooks, handler and queue
+locks registered by `Handler.__init__` under the logger lock – NO schedule of forks and add() calls lets a hook
+see `handler_locks` / `queue_locks` change size while it iterates them: no `RuntimeError` inside an at-fork
+hook, hence no lock left un-acquired before the fork or un-released after it. -/
+theorem hooks_never_see_the_lock_sets_change (sched : List (ForkHooks.Tid × ForkHooks.Lab)) :
+    (ForkHooks.run true true true {} sched).iterErr = false :=
+  (ForkHooks.inv_run sched).ok
+
+/-- …and during each pass the iterating thread owns the logger lock, the set has the size it had at the start -/
+theorem hook_pass_is_under_the_logger_lock (sched : List (ForkHooks.Tid × ForkHooks.Lab)) (t : ForkHooks.Tid)
+    (n : Nat) (hp : (ForkHooks.run true true true {} sched).pc t = .fA n ∨
+                    (ForkHooks.run true true true {} sched).pc t = .fR n) :
+    (ForkHooks.run true true true {} sched).lock = some t ∧ n = (ForkHooks.run true true true {} sched).nlocks := by
+  have hi := ForkHooks.inv_run sched
+  refine ⟨hi.l1 t ?_, hi.sz t n hp⟩
+  rcases hp with hp | hp <;> rw [hp] <;> rfl
+
+/-- tie G: the three facts, regenerated from `_locks_machinery.py` and `Logger.add` -/
+theorem hook_shape_of_source :
+    Locks.Gen.loggerFirst = true ∧ Locks.Gen.loggerLast = true ∧ Conc.ShapeGen.lockedConstruct = true := by decide
+
+/-- the theorem instantiated with what the source says NOW -/
+theorem hooks_never_see_the_lock_sets_change_current (sched : List (ForkHooks.Tid × ForkHooks.Lab)) :
+    (ForkHooks.run Locks.Gen.loggerFirst Locks.Gen.loggerLast Conc.ShapeGen.lockedConstruct {} sched).iterErr
+      = false := by
+  rw [hook_shape_of_source.1, hook_shape_of_source.2.1, hook_shape_of_source.2.2]
+  exact hooks_never_see_the_lock_sets_change sched
+
+/-- non-vacuity: an add() that wants to register its lock while a fork is in progress waits; both complete -/
+example :
+    let sched : List (ForkHooks.Tid × ForkHooks.Lab) := [
+      (1, .startFork), (1, .acq), (1, .iterBegin),
+      (2, .startAdd), (2, .acq),                                  -- blocked: skipped
+      (1, .iterEnd), (1, .fork), (1, .iterBegin), (1, .iterEnd), (1, .rel),
+      (2, .acq), (2, .register), (2, .rel)]
+    let s := ForkHooks.run true true true {} sched
+    s.forks = 1 ∧ s.nlocks = 1 ∧ s.lock = none ∧ s.iterErr = false ∧ s.pc 1 = .idle ∧ s.pc 2 = .idle := by
+  decide
+
+/-- each of the three facts is needed.  (1) logger locks released FIRST by `release_locks` (the code before fix
+5e74dc0, defect F25): an add() slips in while the handler locks are being released -/
+theorem release_logger_first_witness :
+    let sched : List (ForkHooks.Tid × ForkHooks.Lab) := [
+      (1, .startFork), (1, .acq), (1, .iterBegin), (1, .iterEnd), (1, .fork), (1, .rel), (1, .iterBegin),
+      (2, .startAdd), (2, .acq), (2, .register), (2, .rel),
+      (1, .iterEnd)]
+    (ForkHooks.run true false true {} sched).iterErr = true := by
+  decide
+
+/-- (2) handler locks acquired BEFORE the logger locks by `acquire_locks` -/
+theorem acquire_logger_last_witness :
+    let sched : List (ForkHooks.Tid × ForkHooks.Lab) := [
+      (1, .startFork), (1, .iterBegin),
+      (2, .startAdd), (2, .acq), (2, .register), (2, .rel),
+      (1, .iterEnd)]
+    (ForkHooks.run false true true {} sched).iterErr = true := by
+  decide
+
+/-- (3) the Handler built (its locks registered) outside the logger lock by `add()` -/
+theorem unlocked_registration_witness :
+    let sched : List (ForkHooks.Tid × ForkHooks.Lab) := [
+      (1, .startFork), (1, .acq), (1, .iterBegin),
+      (2, .startAdd), (2, .register),
+      (1, .iterEnd)]
+    (ForkHooks.run true true false {} sched).iterErr = true := by
+  decide
+
+/-- tie G (class of seed C15-o): "the child can log through every inherited handler FROM ANY OF ITS THREADS" needs,
+besides free locks (`child_inherits_no_held_lock`), that the re-entrancy guard of `Handler._protected_lock` is
+per-thread state that cannot be inherited in another thread's name: a `threading.local()` created with every
+handler lock (constructor and unpickling), touched only through attribute access, no thread identity consulted –
+and that the guard is set before / reset in a `finally` around the lock.  Regenerated from the AST of `Handler`;
+the real fork storm lets every child log from fresh threads (which receive recycled thread identities). -/
+theorem reentrancy_guard_is_thread_local_of_source :
+    Conc.ScopeGen.guardIsThreadLocal = true ∧ Conc.ScopeGen.protectedLockShape = true := by decide
+
+/-- fork against complete(): complete() holds the logger lock while it takes each handler lock in turn; the
+forking thread asks for the logger lock first, so the two never hold locks the other waits for – the fork
+point is reached only when no complete() is inside its critical section -/
+theorem no_complete_in_progress_at_fork (sched : List (Tid × Lab)) (t u : Tid) (got : List Hid)
+    (hk : (run {} sched).pc t = .k2 got) (h : Hid) (todo : List Hid) :
+    (run {} sched).pc u ≠ .cH h todo ∧ (run {} sched).pc u ≠ .cL todo ∧ (run {} sched).pc u ≠ .c1 := by
+  by_cases hu : u = t
+  · subst hu; rw [hk]; simp
+  · have := (no_other_thread_in_critical_section sched t u got hk hu).1
+    refine ⟨?_, ?_, ?_⟩ <;> intro he <;> rw [he] at this <;> simp [holdsCore] at this
 
 end C15
